@@ -279,3 +279,43 @@ theorem foldUnary_bnot_eq (s : IntShape) (hs : s.sane = true) (ty : ITy) (u : Bo
         rw [bmod64_of_unsigned64 v h0 hbig.2]
 
 end Cppcheck.Trunc
+
+namespace Cppcheck.Trunc
+
+/-- for the widths the platforms have (whole bytes) `castValue` is `truncateIntValue` -/
+theorem castValue_eq_truncate (v : Int) (hv : -(2 ^ 63) ≤ v ∧ v < 2 ^ 63) (n : Nat) (h0 : 0 < n) (h8 : n ≤ 8) (s : Bool) :
+    some (castValue v s (8 * n)) = truncateIntValue v n s := by
+  by_cases h : n = 8
+  · subst h
+    rw [truncate_eq v 8 (by decide) (by decide)]
+    simp only [castValue, show ¬ (8 * 8 < 64) from by decide, if_false]
+    have e64 : (8 * 8 : Nat) = 64 := by decide
+    rw [e64]
+    cases s
+    · simp only [wrapC, Bool.false_eq_true, if_false]
+      have : Int.bmod (v % ((2 ^ 64 : Nat) : Int)) (2 ^ 64) = v := by
+        rw [Int.bmod_def]
+        have e : ((2 ^ 64 : Nat) : Int) = 2 ^ 64 := by norm_cast
+        rw [e]
+        split <;> omega
+      rw [this]
+    · simp only [wrapC, if_true]
+      rw [bmod_of_range hv.1 hv.2, bmod_of_range hv.1 hv.2]
+  · have hlt : 8 * n < 64 := by omega
+    unfold castValue
+    rw [if_pos hlt]
+    unfold truncateIntValue
+    rw [if_neg (by omega), if_neg (by omega)]
+    simp only [shift_mask n h0 h8, Nat.one_shiftLeft]
+    have e8 : n * 8 - 1 = 8 * n - 1 := by omega
+    rw [e8]
+
+/-- a cast to an integer type of `8n` bits is the C conversion (modulo 2^(8n), two's complement for signed targets) -/
+theorem castValue_eq_wrap (v : Int) (hv : -(2 ^ 63) ≤ v ∧ v < 2 ^ 63) (n : Nat) (h0 : 0 < n) (h8 : n ≤ 8) (s : Bool) :
+    castValue v s (8 * n) = Int.bmod (wrapC (8 * n) s v) (2 ^ 64) := by
+  have h := castValue_eq_truncate v hv n h0 h8 s
+  rw [truncate_eq v n h0 h8 s] at h
+  exact Option.some.inj h
+
+end Cppcheck.Trunc
+
